@@ -29,6 +29,7 @@ type c05Input struct {
 	format  formats.Format // the format the bytes are written in
 	unique  bool           // the input's own identifiers are unique (or absent)
 	resolve bool           // the input's own references resolve
+	light   bool           // oracle on the parse only (no re-layouts, no seam case)
 	nodes   int            // number of nodes the input describes (distinct references + reference-less components); -1 unknown
 }
 
@@ -246,6 +247,22 @@ func runC05(seed int64, n int, dir string, tier string) *Report {
 			inputs = append(inputs, c05Input{name: fmt.Sprintf("generated-cdx-%d", i), data: data, format: fm, unique: cdxRefsUnique(b), resolve: true, nodes: cdxNodeCount(b)})
 		}
 		dup, dang := 0.0, 0.0
+		if i == 0 {
+			// a small-scope family around the identifier counter: the metadata component with 2..4 children and
+			// 1..3 top-level components, every component either with a reference of its own, repeating an
+			// earlier reference, or without one (every pattern in the thorough tier, a sample otherwise)
+			pats := refPatterns()
+			if tier != "thorough" {
+				g.R.Shuffle(len(pats), func(a, b int) { pats[a], pats[b] = pats[b], pats[a] })
+				pats = pats[:min(len(pats), 4*n)]
+			}
+			for _, pt := range pats {
+				b := patternBOM(pt[0], pt[1])
+				if data := gen.EncodeCDX(b, cdx.SpecVersion1_5); data != nil {
+					inputs = append(inputs, c05Input{name: "pattern-cdx-" + pt[0] + "/" + pt[1], data: data, format: formats.CDX15JSON, unique: cdxRefsUnique(b), resolve: true, nodes: cdxNodeCount(b), light: true})
+				}
+			}
+		}
 		if i%3 == 1 {
 			dup = 0.25
 		}
@@ -296,9 +313,12 @@ func runC05(seed int64, n int, dir string, tier string) *Report {
 		}
 		rep.OracleEvals++
 		rep.Count(fmt.Sprintf("parsed unique=%v resolve=%v", in.unique, in.resolve))
-		rep.NoteCase(in.name+string(in.data[:min(len(in.data), 64)]), len(doc.NodeList.Nodes) >= 3, info)
+		rep.NoteInput(in.name+string(in.data[:min(len(in.data), 64)]), len(doc.NodeList.Nodes) >= 3, info)
 		if msg := checkParsed(doc, in); msg != "" {
 			rep.Fail(Failure{What: "a parsed graph is not well formed", Detail: msg, Input: info})
+		}
+		if in.light {
+			continue
 		}
 		// twice
 		if again, _ := parseDoc(in.data, ""); again == nil {
@@ -404,4 +424,69 @@ func runC05(seed int64, n int, dir string, tier string) *Report {
 	rep.ShardSize = shardSize
 	_ = bytes.MinRead
 	return rep
+}
+
+// refPatterns: (children of the metadata component, top-level components), each a word over
+// u (own reference), d (repeats an earlier reference), n (no reference).
+func refPatterns() [][2]string {
+	var words func(n int) []string
+	words = func(n int) []string {
+		if n == 0 {
+			return []string{""}
+		}
+		var out []string
+		for _, w := range words(n - 1) {
+			for _, c := range "udn" {
+				out = append(out, w+string(c))
+			}
+		}
+		return out
+	}
+	var out [][2]string
+	for cl := 2; cl <= 4; cl++ {
+		for _, cw := range words(cl) {
+			for tl := 1; tl <= 3; tl++ {
+				for _, tw := range words(tl) {
+					out = append(out, [2]string{cw, tw})
+				}
+			}
+		}
+	}
+	return out
+}
+
+func patternBOM(children, top string) *cdx.BOM {
+	b := cdx.NewBOM()
+	b.SerialNumber = "urn:uuid:3e671687-395b-41f5-a30f-a58921a69b79"
+	k := 0
+	var refs []string
+	mk := func(c rune) cdx.Component {
+		k++
+		co := cdx.Component{Type: cdx.ComponentTypeLibrary, Name: fmt.Sprintf("c%d", k)}
+		switch c {
+		case 'u':
+			co.BOMRef = fmt.Sprintf("ref-%d", k)
+			refs = append(refs, co.BOMRef)
+		case 'd':
+			if len(refs) > 0 {
+				co.BOMRef = refs[len(refs)/2]
+			} else {
+				co.BOMRef = "main"
+			}
+		}
+		return co
+	}
+	mc := cdx.Component{Type: cdx.ComponentTypeApplication, Name: "main", BOMRef: "main"}
+	var subs []cdx.Component
+	for _, c := range children {
+		subs = append(subs, mk(c))
+	}
+	mc.Components = &subs
+	b.Metadata = &cdx.Metadata{Component: &mc}
+	var comps []cdx.Component
+	for _, c := range top {
+		comps = append(comps, mk(c))
+	}
+	b.Components = &comps
+	return b
 }
